@@ -11,8 +11,9 @@
    successor for an allowed next environment value).
 
    Termination: C12_fuel_never_exhausted.
-   That every path of the graph then satisfies the liveness condition is
-   inherited from the implementation (C02/C05) and not re-proved here. *)
+   That every path of the graph is a behaviour of the implementation, and so
+   inherits whatever the implementation guarantees of all its behaviours
+   (the liveness of C02/C05): C12_paths_are_behaviours, C12_paths_inherit. *)
 From Coq Require Import List Bool Arith Lia.
 Import ListNotations.
 From Omega Require Import L4Enum.EnumModel L4Enum.EnumProofs.
@@ -73,6 +74,34 @@ Proof.
   cbn [Nat.add] in Hc. unfold node_complete in Hc. rewrite forallb_forall in Hc.
   apply Nat.eqb_eq, Hc, in_seq. lia.
 Qed.
+(* "Consequently every path of the graph is a behaviour of the implementation
+   and satisfies the liveness condition the implementation guarantees": the
+   states along any infinite path of a checked graph form a sequence of steps
+   allowed by both actions, so every property of all such sequences (the
+   liveness of C02/C05, C02_liveness for Streett implementations) holds of
+   it. *)
+Theorem C12_paths_are_behaviours : forall g (path : nat -> nat),
+  check_graph nx ny E S g = true ->
+  (forall i, In (path i, path (Datatypes.S i)) (edges g)) ->
+  let sigma := fun i => nth (path i) (nodes g) (0, 0) in
+  (forall i, nth_error (nodes g) (path i) = Some (sigma i)) /\
+  (forall i, E (fst (sigma i)) (snd (sigma i)) (fst (sigma (Datatypes.S i))) = true /\
+             S (fst (sigma i)) (snd (sigma i)) (fst (sigma (Datatypes.S i)))
+               (snd (sigma (Datatypes.S i))) = true).
+Proof. exact (paths_are_behaviours nx ny E S). Qed.
+
+Theorem C12_paths_inherit : forall (Guaranteed : (nat -> nat * nat) -> Prop) g path,
+  (forall sigma : nat -> nat * nat,
+     (forall i, E (fst (sigma i)) (snd (sigma i)) (fst (sigma (Datatypes.S i))) = true /\
+                S (fst (sigma i)) (snd (sigma i)) (fst (sigma (Datatypes.S i)))
+                  (snd (sigma (Datatypes.S i))) = true) -> Guaranteed sigma) ->
+  check_graph nx ny E S g = true ->
+  (forall i, In (path i, path (Datatypes.S i)) (edges g)) ->
+  Guaranteed (fun i => nth (path i) (nodes g) (0, 0)).
+Proof.
+  intros G g path HG Hc Hp. apply HG.
+  exact (proj2 (paths_are_behaviours nx ny E S g path Hc Hp)).
+Qed.
 End C12.
 
 (* initial nodes per qinit form *)
@@ -121,6 +150,8 @@ Example C12_example :
   end = true.
 Proof. vm_compute. reflexivity. Qed.
 
+Print Assumptions C12_paths_are_behaviours.
+Print Assumptions C12_paths_inherit.
 Print Assumptions C12_enumeration_sound.
 Print Assumptions C12_fuel_never_exhausted.
 Print Assumptions C12_checker_input_complete.
